@@ -312,6 +312,11 @@ theorem no_recover_no_rebinding :
     runFacts.all (fun rf => rf.recovers == 0 && rf.ctxRebinds.all (· == "CacheContext") && rf.useGas == 0) = true := by
   decide
 
+/-- neither dispatcher defers, recovers or panics: a panic raised inside a native action reaches baseapp (which drops the
+transaction) instead of being turned into an EVM-level failure above the un-restored store -/
+theorem dispatchers_do_not_recover : dispatcherDefers.all (fun d => d.2.1 == 0 && d.2.2.1 == 0 && d.2.2.2 == 0) = true ∧
+    dispatcherDefers.length = dispatchers.length := by decide
+
 /-- the two regenerated tables describe the same methods, in the same order -/
 theorem tables_agree : methods.map (·.abiName) = runFacts.map (·.abiName) := by decide
 
